@@ -173,3 +173,16 @@ Definition progressive (w0 : Q) (ws : list Q) : Q * list Q :=
      else:             expit(new.logweight - current.logweight)                                *)
 Definition merge_prob (bias : bool) (Wcur Wnew : Q) : Q :=
   if bias then Qmin 1 (Wnew / Wcur) else (Wnew / (Wcur + Wnew))%Q.
+
+(* ------------------------------------------------------------------------------------------ *)
+(* Momentum refresh: sample_momentum_from_diagonal(key, mass_matrix_sqrt)
+     normal = random_like(key=key, primals=mass_matrix_sqrt, rng=random.normal)
+     return tree_util.tree_map(jnp.multiply, mass_matrix_sqrt, normal)
+   with random_like (tree_math/forest_math.py):
+     subkeys = tree_unflatten(struct, random.split(key, struct.num_leaves))
+     draw(key_j, x_j) = rng(key=key_j, shape=x_j.shape, dtype=x_j.dtype)
+   i.e. leaf j (in flattening order) is drawn with the j-th of n sub-keys of the key.  [-1] stands for
+   the un-split key itself. *)
+Definition leaf_keys (n : nat) : list Z := map Z.of_nat (seq 0 n).
+(* the variant that hands the same key to every leaf *)
+Definition leaf_keys_shared (n : nat) : list Z := repeat (-1)%Z n.
